@@ -134,7 +134,7 @@ func runInterleave(r *hx.R, n int, w *hx.W, _ []string) error {
 	digestSkip = nil
 
 	queryKinds := []string{"none", "bank-balance", "ethcall-view", "estimate-gas", "ethcall-bank-precompile", "simulate-ethtx", "simulate-convert",
-		"simulate-convert-bad", "simulate-createft-bad", "simulate-createft-erc20", "simulate-ethtx-bad", "ethcall-value-precompile-query", "ethcall-funtoken-sendtobank"}
+		"simulate-convert-bad", "simulate-createft-bad", "simulate-createft-erc20", "simulate-ethtx-bad", "ethcall-value-precompile-query", "ethcall-funtoken-sendtobank", "trace-call"}
 	yields := []string{"between-txs", "in-tx-before-bank-op", "in-tx-after-bank-op", "tx-starts-while-simulation-in-flight"}
 
 	runQuery := func(kind string, amt int64) string {
@@ -167,6 +167,16 @@ func runInterleave(r *hx.R, n int, w *hx.W, _ []string) error {
 				}
 				res, err := k.EthCall(sdk.WrapSDKContext(qctx), req)
 				if err != nil || res.VmError != "" {
+					return "err"
+				}
+				return "ok"
+			case "trace-call": // debug_traceCall of a view call: TraceEthTxMsg builds a StateDB of its own
+				data, _ := embeds.SmartContract_ERC20MinterWithMetadataUpdates.ABI.Pack("balanceOf", deps.Sender.EthAddr)
+				hd := hexutil.Bytes(data)
+				from := accs[0].EthAddr
+				gas := hexutil.Uint64(1_000_000)
+				targs := evm.JsonTxArgs{From: &from, To: &viewC, Data: &hd, Gas: &gas}
+				if _, err := k.TraceCall(sdk.WrapSDKContext(qctx), &evm.QueryTraceTxRequest{Msg: targs.ToMsgEthTx()}); err != nil {
 					return "err"
 				}
 				return "ok"
